@@ -23,7 +23,7 @@ CONSTRAINT Bound
 %s
 CHECK_DEADLOCK FALSE
 """
-DESIGN = "INVARIANT NoLoss\nINVARIANT MainNeverKept\nINVARIANT OnlyLogged\nPROPERTY FlushAllOrNothing\nPROPERTY StoreMonotone\nVIEW View"
+DESIGN = "INVARIANT NoLoss\nINVARIANT MainNeverKept\nINVARIANT OnlyLogged\nINVARIANT BufferedWasLogged\nPROPERTY FlushAllOrNothing\nPROPERTY StoreMonotone\nVIEW View"
 
 
 def t1(a):
@@ -49,6 +49,14 @@ def behaviours(tier, seed):
     tlc.check_ok(mc, "MTLoggerMC design")
     if mc.invariant_violated or mc.property_violated:
         raise tlc.TLCFailure("MTLoggerMC: design-level property violated\n" + mc.out[-1500:])
+    apa = None
+    if not q:     # unbounded: the conjunction is an inductive invariant (Apalache; base case and step)
+        base = tlc.run_apalache("MC_MTLoggerApa", "Init", "IndInv", 0)
+        step = tlc.run_apalache("MC_MTLoggerApa", "IndInit", "IndInv", 1)
+        if not (base[0] and step[0]):
+            raise tlc.TLCFailure("MC_MTLoggerApa: IndInv is not inductive\n" + (base[2] if not base[0] else step[2]))
+        apa = {"tool": "apalache-mc 0.58", "inductive_invariant": "TypeOK /\\ NoLoss /\\ MainNeverKept /\\ OnlyLogged /\\ BufferedWasLogged",
+               "base_s": round(base[1], 1), "step_s": round(step[1], 1)}
     d = 4 if q else 5
     bfs = tlc.run_tlc("MTLoggerMC", cfg_text=CFG % (d, "INVARIANT Emit"), workers=16, timeout=1800)
     tlc.check_ok(bfs, "MTLoggerMC export")
@@ -56,7 +64,7 @@ def behaviours(tier, seed):
                       depth=15, seed=seed + 5, timeout=1800)
     tlc.check_ok(sim, "MTLoggerMC simulate")
     b1, b2 = bfs.printed("H"), sim.printed("H")
-    return mc, b1, b2, d
+    return mc, b1, b2, d, apa
 
 
 def replay(chunk):
@@ -107,7 +115,7 @@ def replay(chunk):
 
 
 def extended_stage(tier, seed):
-    mc, b1, b2, d = behaviours(tier, seed)
+    mc, b1, b2, d, apa = behaviours(tier, seed)
     hists = [b["hist"] for b in b1 + b2 if b["hist"]]
     uniq = {}
     for h in hists:
@@ -131,6 +139,7 @@ def extended_stage(tier, seed):
     failed = sum(1 for r in recs for e in r["events"] if e["op"] == "Flush" and not e["ok"])
     return {"spec": "MTLogger / MTLoggerTrace (CallTraceStoreLogger: log, flush, failed flush keeps the buffer; two loggers, one store)",
             "design_check": {"distinct_states": mc.distinct, "depth": mc.depth,
-                             "properties": ["NoLoss", "MainNeverKept", "OnlyLogged", "FlushAllOrNothing", "StoreMonotone"]},
+                             "properties": ["NoLoss", "MainNeverKept", "OnlyLogged", "BufferedWasLogged", "FlushAllOrNothing", "StoreMonotone"],
+                             "unbounded": apa},
             "behaviours_replayed": len(recs), "exhaustive_depth": d, "steps_compared": sum(len(r["events"]) for r in recs),
             "failed_flushes_exercised": failed, "tlc_states": states, "mismatches": mism[:10], "n_mismatches": len(mism)}
